@@ -58,17 +58,17 @@ pub fn fuzz_plan(prop: &str) -> Vec<(&'static str, usize, u32)> {
         "C04" => vec![("render-read", 2500, 8), ("negative", 1200, 4)],
         "C05" => vec![("write-read", 2500, 8)],
         "C06" => vec![("import", 900, 48)],
-        "C07" => vec![("roundtrip", 900, 2), ("deep-chains", 900, 16)],
+        "C07" => vec![("roundtrip", 900, 2), ("deep-chains", 2500, 24)],
         "C08" => vec![("compile", 700, 2), ("compile-asymmetric-flip", 700, 2), ("compile-unrealisable-cuts", 700, 2), ("compile-edge-ports", 700, 2)],
         "C09" => vec![("programs", 400, 2), ("cyclic", 400, 2), ("arrays", 200, 1)],
         "C12" => vec![("random-chains", 40, 1), ("flatten", 400, 1), ("general-angles", 60, 1), ("general-angles-flatten", 60, 1)],
         "C13" => vec![("polygons-random", 200, 1), ("polygons-many-vertices", 700, 40), ("polygons-large-coordinates", 60, 1), ("paths", 60, 1)],
-        "C14" => vec![("raw-proto-raw", 1200, 2), ("proto-raw-proto", 1200, 2), ("raw-proto-raw-deep-chains", 1200, 16)],
+        "C14" => vec![("raw-proto-raw", 1200, 2), ("proto-raw-proto", 1200, 2), ("raw-proto-raw-deep-chains", 2500, 24)],
         "C15" => vec![("random-doubles", 32 * 8, 1), ("random-reals", 32 * 9, 1), ("records", 40, 1), ("records-many-reals", 200, 4)],
         "C16" => vec![("import", 1500, 4)],
         "C17" => vec![("generic-random", 1500, 2), ("raw-cells", 900, 2), ("gds-structs", 900, 2), ("tetris-cells", 900, 2), ("tetris-proto-export", 900, 2), ("placement", 700, 2)],
         "C18" => vec![("gds-markup", 1800, 8), ("lef-markup", 2600, 8), ("scalars", 120, 2)],
-        "C19" => vec![("roundtrip", 500, 2), ("negative", 520, 2), ("roundtrip-large", 900, 24)],
+        "C19" => vec![("roundtrip", 500, 2), ("negative", 520, 2), ("roundtrip-large", 4000, 48)],
         "C20" => vec![("raw-to-gds", 900, 48), ("raw-to-proto", 900, 48), ("gds-to-raw", 900, 64), ("proto-to-raw", 900, 48), ("raw-to-proto-large", 1500, 400), ("lef-raw-lef", 900, 48), ("tetris-to-raw-gds-proto", 900, 64)],
         _ => vec![],
     }
